@@ -2,6 +2,7 @@ import RactorModel.Lemmas.OutPortV1
 import RactorModel.Lemmas.OutPortV2
 import RactorModel.Lemmas.OutPortV2Acct
 import RactorModel.Lemmas.OutPortBatch
+import RactorModel.Lemmas.OutPortDrop
 import RactorModel.Extracted
 
 /-!
@@ -51,12 +52,13 @@ theorem v2_exact (ad : Bool) (ops : List (Op2 M O)) (hidle : ((V2.init M O ad).r
 
 /-- (up to the subscriber's death) With the public configuration (duplicates allowed) a
 subscription leaves the `subscribers` vector only because its actor had exited, and exactly
-at the first publication its converter maps to `Some` that could not be sent: what it
-received is the image of everything before that publication. -/
+at a publication `m` it was offered after that (since the round-4 fix: whether its converter
+maps `m` to `Some` — the send fails — or to `None`): what it received is the image of
+everything before that publication. -/
 theorem v2_removed_only_dead (ops : List (Op2 M O)) :
     ∀ s ∈ ((V2.init M O true).run ops).gone,
       s.actor ∈ ((V2.init M O true).run ops).dead ∧
-      ∃ m tl o, ((V2.init M O true).run ops).after s = s.offered ++ m :: tl ∧ s.conv m = some o ∧
+      ∃ m tl, ((V2.init M O true).run ops).after s = s.offered ++ m :: tl ∧
         s.got = s.offered.filterMap s.conv :=
   (inv_run ops (inv_init true)).removed (run_allowDup _ _)
 
@@ -69,6 +71,19 @@ theorem v2_hist (ad : Bool) (ops : List (Op2 M O)) :
         | .subscribe _ _ => some none
         | _ => none :=
   hist_run ad ops
+
+/-- (a stopped subscriber IS dropped) The port task offering ANY publication to a subscription
+whose actor has stopped removes it in that very step — whatever its converter says about the
+message — and moves on to the next subscriber with the whole segment. Together with
+`v2_dead_dropped`: a subscription gets at most one converter call after its subscriber stopped.
+(Before the round-4 `fix:` this failed for `None`-mapped publications: witness
+`corpus/C16/e-lts-v2-stopped-none.ops`.) -/
+theorem v2_stopped_dropped (st : V2 M O) (srv todo : List (Sub M O)) (s : Sub M O) (seg left : List M)
+    (m : M) (rest : List (Cmd M O)) (hpc : st.pc = .disp srv (s :: todo) seg (m :: left) rest)
+    (hd : s.actor ∈ st.dead) :
+    st.task.2 = some ⟨s.key, m, false⟩ ∧ st.task.1.gone = st.gone ++ [s] ∧
+      st.task.1.pc = .disp srv todo seg seg rest := by
+  cases hc : s.conv m <;> simp [V2.task, hpc, hc, hd]
 
 /-- (frame) A port-task step that calls subscription `c.key`'s converter leaves every other
 subscription untouched — also when that step removes a dead subscriber. -/
@@ -164,14 +179,14 @@ theorem v1_subseq (cap : Nat) (ops : List (Op1 M O)) :
 /-- (exact accounting) The cursor only moves forward, one mask entry per ring position
 passed; the messages handed to the converter are exactly the publications after the
 subscription point whose entry is a read, in order; everything read was cast to the
-subscriber except, when the task has ended, the single last message, which was rejected by
-a subscriber that had exited. -/
+subscriber except, when the task has ended, the single last message, which was read after
+the subscriber had exited (rejected or, since the round-4 fix, skipped — either ends the task). -/
 theorem v1_account (cap : Nat) (ops : List (Op1 M O)) :
     ∀ f ∈ ((V1.init M O cap).run ops).fwds,
       f.start + f.mask.length = f.cursor ∧
       f.readMsgs = pick f.mask (((V1.init M O cap).run ops).after f) ∧
       (f.ended = false → f.got = f.readMsgs.filterMap f.conv) ∧
-      (f.ended = true → ∃ init m o, f.readMsgs = init ++ [m] ∧ f.conv m = some o ∧
+      (f.ended = true → ∃ init m, f.readMsgs = init ++ [m] ∧
           f.actor ∈ ((V1.init M O cap).run ops).dead ∧ f.got = init.filterMap f.conv) := by
   intro f hf
   have h := inv1_run ops (inv1_init cap) f hf
@@ -225,6 +240,17 @@ theorem v1_dead_dropped (cap : Nat) (log : List M) (dead : List Nat) (f : Fwd M 
     f.step cap log dead = (f, none) := by
   simp [Fwd.step, h]
 
+/-- (a stopped subscriber IS dropped, v1) The first publication a live forwarding task reads
+after its subscriber has stopped ends the task (and with it the broadcast receiver), whatever
+the converter says about it. (Before the round-4 `fix:` a `None`-mapped publication left the
+task and its receiver alive for ever: witness `corpus/C16/e-lts-v1-stopped-none.ops`.) -/
+theorem v1_stopped_dropped (cap : Nat) (log : List M) (dead : List Nat) (f : Fwd M O) (m : M)
+    (he : f.ended = false) (hnolag : ¬ f.cursor + cap < log.length) (hm : log[f.cursor]? = some m)
+    (hd : f.actor ∈ dead) :
+    (f.step cap log dead).1.ended = true ∧ (f.step cap log dead).2 = some ⟨f.key, m, false⟩ ∧
+      (f.step cap log dead).1.got = f.got := by
+  cases hc : f.conv m <;> simp [Fwd.step, he, hnolag, hm, hc, hd]
+
 /-- (`send` never blocks) Publishing never depends on any subscriber or forwarding task
 beyond the receiver count: it appends to the ring (overwriting the oldest slot) or, with no
 receiver, does nothing. -/
@@ -251,6 +277,261 @@ theorem v1_ok [BEq O] [LawfulBEq O] (cap : Nat) (ops : List (Op1 M O)) :
     exact this
   · left; simpa using hc
 
+/-! ## what "each subscriber … never twice" means: per SUBSCRIPTION, not per actor -/
+
+/-- (per actor = per subscription, summed) With the public configuration
+(`allow_duplicate_subscription = true`; the default port has no de-duplication at all) the port
+never merges or replaces subscriptions of the same actor: when the port task is parked, EVERY
+subscription ever made by an actor that has not exited is registered and complete. So an actor
+that subscribed k times has been sent the converter image of each later publication k times
+(once per subscription record — `v2_not_lost`: the records are exactly the `subscribe` calls).
+"Never twice" in C16 is therefore a statement per subscription; per actor it is FALSE by design
+for double subscriptions (see `demoDup`). -/
+theorem v2_per_actor (ops : List (Op2 M O)) (a : Nat)
+    (hidle : ((V2.init M O true).run ops).idle = true)
+    (halive : a ∉ ((V2.init M O true).run ops).dead) :
+    let st := (V2.init M O true).run ops
+    ∀ s ∈ st.all, s.actor = a → s ∈ st.live ∧ s.got = (st.after s).filterMap s.conv := by
+  intro st s hs ha
+  have hinv : Inv st := inv_run ops (inv_init true)
+  rcases all_idle hidle hs with hl | hg
+  · exact ⟨hl, hinv.exact hidle s hl⟩
+  · exact absurd (ha ▸ (hinv.removed (run_allowDup _ _) s hg).1) halive
+
+/-- the same actor subscribed twice: both records are kept and each receives everything
+published after it — the actor gets 2 and 3 twice -/
+def demoDup : V2 Nat Nat :=
+  (V2.init Nat Nat true).run
+    ([.subscribe 7 some, .publish 1, .subscribe 7 some, .publish 2, .publish 3] ++ List.replicate 20 .task)
+
+example : demoDup.idle = true := by decide
+example : demoDup.live.map (fun s => (s.key, s.actor, s.got)) = [(0, 7, [1, 2, 3]), (1, 7, [2, 3])] := by decide
+
+/-! ## eventually complete (no further publications) -/
+
+/-- (v2: eventually complete) After ANY history, if nothing more is enqueued, finitely many
+steps of the port task bring it to its parking point with an empty channel, and then every
+registered subscription has received the image of ALL publications after its subscription
+point. No step of this waits for anything a subscriber does. -/
+theorem v2_eventually_complete (ad : Bool) (ops : List (Op2 M O)) :
+    ∃ n, let st := (V2.init M O ad).run (ops ++ List.replicate n .task)
+      st.idle = true ∧ ∀ s ∈ st.live, s.got = (st.after s).filterMap s.conv := by
+  obtain ⟨n, hn⟩ := V2.reaches_idle ((V2.init M O ad).run ops)
+  refine ⟨n, ?_⟩
+  have he : (V2.init M O ad).run (ops ++ List.replicate n .task) =
+      V2.tasks n ((V2.init M O ad).run ops) := by
+    rw [V2.tasks_eq_run]; simp [V2.run, List.foldl_append]
+  simp only [he]
+  refine ⟨hn, ?_⟩
+  have hinv : Inv (V2.tasks n ((V2.init M O ad).run ops)) := by
+    rw [← he]; exact inv_run _ (inv_init ad)
+  exact hinv.exact hn
+
+/-- (v1: eventually caught up) After any history, without further publications, finitely many
+iterations of forwarding task `i` make it return or catch up with the ring; a task that caught
+up has the images of the last `cap` publications at the end of its sequence. -/
+theorem v1_eventually_caught_up (cap : Nat) (ops : List (Op1 M O)) (i : Nat) :
+    ∃ n, let st := (V1.init M O cap).run (ops ++ List.replicate n (.task i))
+      ∀ f, st.fwds[i]? = some f → f.ended = true ∨
+        (f.cursor = st.log.length ∧
+          ((st.after f).drop ((st.after f).length - cap)).filterMap f.conv <:+ f.got) := by
+  obtain ⟨n, hn⟩ := V1.reaches_settled ((V1.init M O cap).run ops) (inv1_run ops (inv1_init cap)) i
+  refine ⟨n, ?_⟩
+  have he : (V1.init M O cap).run (ops ++ List.replicate n (.task i)) =
+      V1.tasks n ((V1.init M O cap).run ops) i := by
+    rw [V1.tasks_eq_run]; simp [V1.run, List.foldl_append]
+  intro st f hf
+  have hst : st = V1.tasks n ((V1.init M O cap).run ops) i := he
+  have hinv : Inv1 st := inv1_run _ (inv1_init cap)
+  have hcap : st.cap = cap := run1_cap _ _
+  rw [← hst] at hn
+  simp only [V1.settled, hf, Bool.or_eq_true, decide_eq_true_eq] at hn
+  cases hend : f.ended with
+  | true => left; rfl
+  | false =>
+    right
+    have hok := hinv f (List.mem_of_getElem? hf)
+    have hcur : f.cursor = st.log.length := by
+      rcases hn with h | h
+      · rw [hend] at h; cases h
+      · have := hok.hCur; omega
+    refine ⟨hcur, ?_⟩
+    have := hok.recent hend hcur
+    rw [hcap] at this
+    exact this
+
+/-! ## dropping the port (`V2c` / `V1c`: the handle — the last sender — is dropped while the
+port task / the forwarding tasks still have queued publications) -/
+
+/-- (simulation) The inner machine of any run with a drop is a run of the plain port machine:
+every theorem above (order, no duplicates, no gaps, removal only of dead subscribers, …)
+holds verbatim of ports that are dropped at an arbitrary moment. -/
+theorem v2_drop_simulation (ad : Bool) (ops : List (Op2c M O)) :
+    ∃ ops', ((V2c.init M O ad).run ops).base = (V2.init M O ad).run ops' :=
+  V2c.run_base _ ops
+
+/-- (order / no duplicates / no gaps, with drops) -/
+theorem v2_drop_prefix (ad : Bool) (ops : List (Op2c M O)) :
+    let st := ((V2c.init M O ad).run ops).base
+    ∀ s ∈ st.all, s.got = s.offered.filterMap s.conv ∧ s.offered <+: st.after s :=
+  (V2c.inv_run ad ops).prefix
+
+/-- (everything published before the drop is delivered) The port task finishes only after the
+drop, with the channel empty and the last batch dispatched; at that moment every subscription
+still registered has received the image of ALL publications made after its subscription
+point, in order — and, for the public configuration, so has every subscription ever made
+whose subscriber has not exited. -/
+theorem v2_drop_delivers_all (ops : List (Op2c M O))
+    (hfin : ((V2c.init M O true).run ops).finished = true) :
+    let st := (V2c.init M O true).run ops
+    st.closed = true ∧ st.base.queue = [] ∧
+      (∀ s ∈ st.base.live, s.got = (st.base.after s).filterMap s.conv) ∧
+      ∀ s ∈ st.base.all, s.actor ∉ st.base.dead → s.got = (st.base.after s).filterMap s.conv := by
+  intro st
+  have hok := V2c.finOk_run true ops hfin
+  have hinv : Inv st.base := V2c.inv_run true ops
+  have hq : st.base.queue = [] := by
+    have := hok.2
+    simp only [V2.idle, Bool.and_eq_true, List.isEmpty_iff] at this
+    exact this.1
+  refine ⟨hok.1, hq, hinv.exact hok.2, ?_⟩
+  intro s hs hal
+  rcases all_idle hok.2 hs with hl | hg
+  · exact hinv.exact hok.2 s hl
+  · exact absurd (hinv.removed (V2c.run_allowDup true ops) s hg).1 hal
+
+/-- (never delivers afterwards) Once the port task has finished, no operation whatsoever
+changes any subscription record or makes a converter call: nothing is delivered after the
+task ended, in particular not to subscribers that stopped later. -/
+theorem v2_drop_final (ad : Bool) (ops : List (Op2c M O)) (op : Op2c M O)
+    (hfin : ((V2c.init M O ad).run ops).finished = true) :
+    let st := (V2c.init M O ad).run ops
+    (st.step op).finished = true ∧ (st.step op).base.all = st.base.all ∧
+      (st.step op).base.hist = st.base.hist ∧ (st.step op).task.2 = none :=
+  V2c.finished_frozen _ (V2c.finOk_run ad ops) hfin op
+
+/-- (progress after the drop) Closed and not finished: the next task step finishes the task
+or strictly decreases the lexicographic measure (entries in the channel, program-counter
+rank, work left in the batch); nothing can be enqueued any more. -/
+theorem v2_drop_progress (st : V2c M O) (hc : st.closed = true) (hf : st.finished = false) :
+    st.task.1.finished = true ∨
+      (st.task.1.finished = false ∧ st.task.1.closed = true ∧
+        lexClose st.task.1.base.closeMeasure st.base.closeMeasure) :=
+  V2c.task_progress st hc hf
+
+/-- (the port task terminates) After the drop the port task ends within finitely many of its
+own steps, from ANY state (whatever the subscribers do meanwhile costs no step). -/
+theorem v2_drop_terminates (st : V2c M O) (hc : st.closed = true) :
+    ∃ n, (V2c.tasks n st).finished = true :=
+  V2c.terminates st hc
+
+/-- (which publications count) The channel history — against which `after` is computed in
+`v2_drop_delivers_all` — is exactly the sequence of `send` / `subscribe` calls made BEFORE
+the (first) drop, in call order; nothing attempted after the drop is recorded anywhere. -/
+theorem v2_drop_hist (ad : Bool) (ops : List (Op2c M O)) :
+    ((V2c.init M O ad).run ops).base.hist.map Cmd.data? =
+      (ops.takeWhile Op2c.live).filterMap shape2c := by
+  have := V2c.hist_run' (V2c.init M O ad) rfl ops
+  rw [this]; rfl
+
+/-- (which publications count, v1) `pubs` — against which `after` is computed in
+`v1_drop_delivers` — is exactly the `send` calls made before the drop. -/
+theorem v1_drop_pubs (cap : Nat) (ops : List (Op1c M O)) :
+    ((V1c.init M O cap).run ops).base.pubs = (ops.takeWhile Op1c.live).filterMap pub1c := by
+  have := V1c.pubs_run' (V1c.init M O cap) rfl ops
+  rw [this]; rfl
+
+theorem v1_drop_simulation (cap : Nat) (ops : List (Op1c M O)) :
+    ∃ ops', ((V1c.init M O cap).run ops).base = (V1.init M O cap).run ops' :=
+  V1c.run_base _ ops
+
+/-- (what is delivered when the default port is dropped) A forwarding task returns on `Closed`
+only after the drop, with its subscriber never found dead, and having consumed the whole
+ring: what it delivered is exactly the converter image of the publications after its
+subscription point that it did not skip by lag (`pick mask`), it ends with the image of the
+last `cap` publications, and if it never lagged it is the image of ALL of them, in order. -/
+theorem v1_drop_delivers (cap : Nat) (ops : List (Op1c M O)) (i : Nat)
+    (hi : i ∈ ((V1c.init M O cap).run ops).finished) :
+    let st := (V1c.init M O cap).run ops
+    st.closed = true ∧ ∃ f, st.base.fwds[i]? = some f ∧ f.ended = false ∧
+      f.cursor = st.base.log.length ∧
+      f.got = (pick f.mask (st.base.after f)).filterMap f.conv ∧
+      ((st.base.after f).drop ((st.base.after f).length - cap)).filterMap f.conv <:+ f.got ∧
+      ((∀ x ∈ f.mask, x = none) → f.got = (st.base.after f).filterMap f.conv) := by
+  intro st
+  obtain ⟨hc, f, hf, he, hcur⟩ := V1c.finOk_run cap ops i hi
+  have hok := V1c.inv_run cap ops f (List.mem_of_getElem? hf)
+  have hcap : st.base.cap = cap := V1c.run_cap cap ops
+  refine ⟨hc, f, hf, he, hcur, ?_, ?_, ?_⟩
+  · have := hok.hGot
+    simp only [GotOk, he, Bool.false_eq_true, ↓reduceIte] at this
+    rw [this, hok.readAfter]; rfl
+  · have := hok.recent he hcur
+    rw [hcap] at this
+    exact this
+  · intro hn; exact hok.noLagAll hn he hcur
+
+/-- (never delivers afterwards) A forwarding task that returned on `Closed` is inert: none of
+its iterations does anything and no operation changes its subscription record. -/
+theorem v1_drop_final (cap : Nat) (ops : List (Op1c M O)) (i : Nat) (op : Op1c M O)
+    (hi : i ∈ ((V1c.init M O cap).run ops).finished) :
+    let st := (V1c.init M O cap).run ops
+    i ∈ (st.step op).finished ∧ (st.step op).base.fwds[i]? = st.base.fwds[i]? ∧
+      st.task i = (st, none) :=
+  V1c.finished_frozen _ (V1c.finOk_run cap ops) i hi op
+
+/-- (progress after the drop) An iteration of a live forwarding task of a dropped port returns
+(on `Closed`, or on a dead subscriber) or moves its cursor strictly forward, and the ring no
+longer grows. -/
+theorem v1_drop_progress (st : V1c M O) (i : Nat) (f : Fwd M O) (hc : st.closed = true)
+    (hfi : st.base.fwds[i]? = some f) (hnf : st.finished.contains i = false) (he : f.ended = false) :
+    i ∈ (st.task i).1.finished ∨
+      ((st.task i).1.finished = st.finished ∧ (st.task i).1.closed = true ∧
+        (st.task i).1.base.log = st.base.log ∧
+        ∃ f', (st.task i).1.base.fwds[i]? = some f' ∧ (f'.ended = true ∨ f.cursor < f'.cursor)) :=
+  V1c.task_progress st i f hc hfi hnf he
+
+/-- (every forwarding task terminates) After the drop each forwarding task returns within
+finitely many of its own iterations, at every reachable state. -/
+theorem v1_drop_terminates (cap : Nat) (ops : List (Op1c M O)) (i : Nat)
+    (hc : ((V1c.init M O cap).run ops).closed = true)
+    (hi : i < ((V1c.init M O cap).run ops).base.fwds.length) :
+    ∃ n, (V1c.tasks n ((V1c.init M O cap).run ops) i).taskDone i = true :=
+  V1c.terminates _ (V1c.inv_run cap ops) hc i hi
+
+/-! ## the default port's two-step `send` (other threads between `receiver_count()` and `tx.send`) -/
+
+/-- (linearizable) Whatever happens between a publisher's `receiver_count() > 0` check and its
+`tx.send` — subscriptions, forwarding tasks ending, other publishers (the port itself cannot
+be dropped while a publisher borrows it) — the port reached is one reached by an ATOMIC run in
+which each publication takes effect at its check (if it saw no receiver: dropped there) or at
+its store (otherwise). Hence every v1 theorem above holds with publishers on other threads. -/
+theorem v1_send_two_step_linearizable (cap : Nat) (ops : List (Op1t M O)) :
+    ∃ ops', ((V1t.init M O cap).run ops).base = (V1c.init M O cap).run ops' :=
+  V1t.run_base _ ops
+
+/-- what the check does: nothing on a closed port; parks the publisher iff it saw a receiver;
+otherwise the publication is recorded as dropped at once and the ring is untouched -/
+theorem v1_send_check (st : V1t M O) (m : M) :
+    (st.base.closed = true ∧ st.step (.pubCheck m) = st) ∨
+    (st.base.closed = false ∧ st.base.base.hasReceiver = true ∧
+        (st.step (.pubCheck m)).base = st.base ∧ (st.step (.pubCheck m)).pending = st.pending ++ [m]) ∨
+    (st.base.closed = false ∧ st.base.base.hasReceiver = false ∧
+        (st.step (.pubCheck m)).base = st.base.step (.op (.publish m)) ∧
+        (st.step (.pubCheck m)).pending = st.pending ∧
+        (st.step (.pubCheck m)).base.base.log = st.base.base.log) :=
+  V1t.pubCheck_cases st m
+
+/-- a publisher sees a receiver, the only forwarding task then finds its subscriber dead and
+ends, then the publisher stores: nothing is stored (`tx.send` fails), the publication counts as
+made at the store point -/
+def demo1t : V1t Nat Nat :=
+  (V1t.init Nat Nat 4).run
+    [.op (.op (.subscribe 7 some)), .op (.op (.publish 1)), .op (.op (.exit 7)), .pubCheck 2,
+     .op (.op (.task 0)), .pubStore 0]
+
+example : (demo1t.base.base.log, demo1t.base.base.pubs, demo1t.pending) = ([1], [1, 2], []) := by decide
+
 /-! ## non-vacuity: concrete runs -/
 
 /-- v2: two subscribers, the second subscribing after message 1; a converter dropping odd
@@ -272,6 +553,26 @@ def demo1 : V1 Nat Nat :=
 
 example : demo1.fwds.map (fun f => (f.got, f.mask, f.cursor)) =
     [([4, 5, 6, 7], [some 7, some 7, some 7, none, none, none, none], 7)] := by decide
+
+/-- v2 with a drop: three publications are still in the channel when the port is dropped;
+the task delivers them all, then finishes; a later publish is impossible / changes nothing. -/
+def demo2c : V2c Nat Nat :=
+  (V2c.init Nat Nat true).run
+    ([.op (.subscribe 7 some), .op (.publish 1), .op (.publish 2), .op (.publish 3), .drop, .op (.publish 9)]
+      ++ List.replicate 12 (.op .task))
+
+example : demo2c.finished = true := by decide
+example : demo2c.base.live.map (fun s => (s.key, s.got)) = [(0, [1, 2, 3])] := by decide
+
+/-- v1 with a drop: ring of 4, five publications, then the port is dropped; the detached task
+lags once (loses 1), delivers 2..5 and returns on `Closed`. -/
+def demo1c : V1c Nat Nat :=
+  (V1c.init Nat Nat 4).run
+    ([.op (.subscribe 7 some)] ++ (List.range 5).map (fun m => .op (.publish (m + 1))) ++ [.drop] ++
+      List.replicate 7 (.op (.task 0)))
+
+example : demo1c.finished = [0] := by decide
+example : demo1c.base.fwds.map (fun f => (f.got, f.ended)) = [([2, 3, 4, 5], false)] := by decide
 
 #print axioms C16.extracted_maxBatch
 #print axioms C16.extracted_capacity
@@ -296,5 +597,25 @@ example : demo1.fwds.map (fun f => (f.got, f.mask, f.cursor)) =
 #print axioms C16.v1_frame
 #print axioms C16.v1_publish_nonblocking
 #print axioms C16.v1_ok
+#print axioms C16.v2_stopped_dropped
+#print axioms C16.v2_per_actor
+#print axioms C16.v1_send_two_step_linearizable
+#print axioms C16.v1_send_check
+#print axioms C16.v2_eventually_complete
+#print axioms C16.v1_eventually_caught_up
+#print axioms C16.v1_stopped_dropped
+#print axioms C16.v2_drop_simulation
+#print axioms C16.v2_drop_prefix
+#print axioms C16.v2_drop_delivers_all
+#print axioms C16.v2_drop_final
+#print axioms C16.v2_drop_progress
+#print axioms C16.v2_drop_terminates
+#print axioms C16.v1_drop_simulation
+#print axioms C16.v2_drop_hist
+#print axioms C16.v1_drop_pubs
+#print axioms C16.v1_drop_delivers
+#print axioms C16.v1_drop_final
+#print axioms C16.v1_drop_progress
+#print axioms C16.v1_drop_terminates
 
 end C16
